@@ -497,6 +497,8 @@ class Runner:
         #: a second connection of the same user through which a quarter of
         #: the mutating commands go (the program is still one sequence)
         self.c2: Conn | None = None
+        self.force_c2 = False
+        self.scripted = bool(spec.get('script'))
         self.rng_conn = random.Random(spec['seed'] ^ 0xc0de)
         self.full_dumps = bool(spec.get('script')) or spec.get('full', False)
         self.avoid = set(spec.get('avoid') or ())
@@ -511,7 +513,8 @@ class Runner:
         if self.c2 is not None and judged is not None and not self.c2.dead \
                 and rest.split(b' ')[0] in (b'CREATE', b'DELETE', b'RENAME',
                                             b'SUBSCRIBE', b'UNSUBSCRIBE') \
-                and self.rng_conn.random() < 0.3:
+                and (self.force_c2 or (not self.scripted and
+                                       self.rng_conn.random() < 0.3)):
             conn = self.c2
             self.ctx.count('commands_via_second_connection')
         r = await conn.simple(rest)
@@ -1256,6 +1259,12 @@ class Runner:
         ctx = self.ctx
         m = self.m
         kind = op[0]
+        self.force_c2 = False
+        if kind.endswith('@2'):
+            # scripted: this command goes through the second connection
+            kind = kind[:-2]
+            op = [kind] + list(op[1:])
+            self.force_c2 = True
         m.begin_step()
         self._last_target = None
         self._below = False
